@@ -158,7 +158,7 @@ def run_impl(case, collect_model_steps=True):
                 elif st.get("mode_as") == "str_subclass":
                     mode_arg = type("Mode", (str,), {})(mode_arg)
                 try:
-                    with common.quiet():
+                    with common.quiet(), common.time_limit(300):
                         emdfile.save(w.path(st["path"]), obj, mode=mode_arg, tree=st.get("tree", True),
                                      emdpath=st.get("emdpath"))
                     obs.append({"ok": True})
@@ -173,7 +173,7 @@ def run_impl(case, collect_model_steps=True):
             elif do == "read":
                 msteps.append(dict(st))
                 try:
-                    with common.quiet():
+                    with common.quiet(), common.time_limit(300):
                         x = emdfile.read(w.path(st["path"]), emdpath=st.get("emdpath"), tree=st.get("tree", True))
                     obs.append(alpha.readout_json(x))
                 except Exception as e:
